@@ -7,13 +7,13 @@ Import ListNotations.
 
 (* ================================================================== Part 1 *)
 
-Lemma sem_assign st s : sem st s = fold_left set (assign s) st.
+Lemma apply_assign st s : apply st s = fold_left set (assign s) st.
 Proof. destruct s; reflexivity. Qed.
 
-Lemma run_flat ss : forall st, run ss st = fold_left set (all_assign ss) st.
+Lemma run_flat ss : forall st, run_total ss st = fold_left set (all_assign ss) st.
 Proof.
-  unfold run, all_assign. induction ss as [|s r IH]; intros st; [reflexivity|].
-  cbn [fold_left flat_map]. rewrite fold_left_app, IH, sem_assign. reflexivity.
+  unfold run_total, all_assign. induction ss as [|s r IH]; intros st; [reflexivity|].
+  cbn [fold_left flat_map]. rewrite fold_left_app, IH, apply_assign. reflexivity.
 Qed.
 
 Lemma get_set a st v : get a (set st v) = if attr_eqb (attr_of v) a then v else get a st.
@@ -45,7 +45,7 @@ Proof. apply (final_lastset_gen a vs init None). Qed.
 
 (* the attribute a after running ss: the last assigned value, else the initial one *)
 Lemma get_run a ss st :
-  get a (run ss st) = match lastset a (all_assign ss) with Some v => v | None => get a st end.
+  get a (run_total ss st) = match lastset a (all_assign ss) with Some v => v | None => get a st end.
 Proof. rewrite run_flat, get_fold, final_lastset. reflexivity. Qed.
 
 Lemma col_ext s1 s2 : (forall a, get a s1 = get a s2) -> s1 = s2.
@@ -115,7 +115,7 @@ Qed.
 
 Lemma check_attr_sound req ex ss st0 a :
   matches ex st0 -> stated_enough ss req ex st0 -> check_attr req ex ss a = true ->
-  get a (run ss st0) = get a (override st0 req).
+  get a (run_total ss st0) = get a (override st0 req).
 Proof.
   intros Hm He. unfold check_attr. rewrite get_run, get_override.
   destruct (lastset a (all_assign ss)) as [v|]; destruct (req_val req a) as [w|] eqn:Hr.
@@ -128,7 +128,7 @@ Qed.
 
 Lemma check_attr_prefix_sound req ex ss st0 a :
   matches ex st0 -> stated_enough ss req ex st0 -> check_attr_prefix req ex ss a = true ->
-  get a (run ss st0) = get a st0 \/ get a (run ss st0) = get a (override st0 req).
+  get a (run_total ss st0) = get a st0 \/ get a (run_total ss st0) = get a (override st0 req).
 Proof.
   intros Hm He. unfold check_attr_prefix. rewrite get_run, get_override.
   destruct (lastset a (all_assign ss)) as [v|]; [|left; reflexivity].
@@ -137,15 +137,50 @@ Proof.
   - intros H. left. eapply unrequested_ok_sound; eauto.
 Qed.
 
+(* ---- addressing: run = run_total exactly when every statement names the column's current name *)
+Lemma name_after_apply st s : c_name (apply st s) = name_after (c_name st) s.
+Proof. destruct s; reflexivity. Qed.
+
+Lemma run_spec ss : forall st,
+  run ss st = if addr_ok (c_name st) ss then Some (run_total ss st) else None.
+Proof.
+  unfold run_total. induction ss as [|s r IH]; intros st; [reflexivity|].
+  cbn [run addr_ok fold_left]. unfold sem. destruct (addr s) as [c|].
+  - destruct (N.eqb c (c_name st)); cbn [andb]; [|reflexivity]. rewrite IH, name_after_apply. reflexivity.
+  - cbn [andb]. rewrite IH, name_after_apply. reflexivity.
+Qed.
+
+Lemma final_name ss : forall st, c_name (run_total ss st) = fold_left name_after ss (c_name st).
+Proof.
+  unfold run_total. induction ss as [|s r IH]; intros st; [reflexivity|].
+  cbn [fold_left]. rewrite IH, name_after_apply. reflexivity.
+Qed.
+
+Lemma addr_ok_app a b cur : addr_ok cur (a ++ b) = addr_ok cur a && addr_ok (fold_left name_after a cur) b.
+Proof.
+  revert cur. induction a as [|s r IH]; intros cur; [reflexivity|].
+  cbn [app addr_ok fold_left]. rewrite IH, andb_assoc. reflexivity.
+Qed.
+
+Lemma matches_name0 ex st0 : matches ex st0 -> c_name st0 = e_name ex.
+Proof. intros Hm. pose proof (Hm AName _ eq_refl) as H. cbn in H. congruence. Qed.
+
 Theorem check_C13_sound i o : check_C13 i o = true -> C13_holds i o.
 Proof.
-  destruct o as [ss e]. unfold check_C13, C13_holds. rewrite andb_true_iff. intros [Hn H].
+  destruct o as [tss e]. unfold check_C13, C13_holds. rewrite !andb_true_iff. intros [[[Ht Hn] Hadr] H].
+  split.
+  { rewrite forallb_forall in Ht. intros [t s0] Hin. specialize (Ht _ Hin). cbn [fst] in *.
+    unfold target_eqb in Ht. rewrite andb_true_iff in Ht. destruct Ht as [H1 H2].
+    destruct t as [a b], (i_target i) as [a' b']. cbn [fst snd] in *.
+    apply opt_eqbN_eq in H1. apply N.eqb_eq in H2. congruence. }
   split; [apply check_no_invention_sound; exact Hn|].
   destruct e as [e|]; rewrite andb_true_iff in H; destruct H as [Hu Ha]; rewrite forallb_forall in Ha.
-  - split; [exact Hu|]. intros st0 Hm He a.
-    apply (check_attr_prefix_sound (i_req i) (i_ex i) ss st0 a Hm He). apply Ha, In_all_attrs.
+  - split; [exact Hu|]. intros st0 Hm He. exists (run_total (map snd tss) st0). split.
+    + rewrite run_spec, (matches_name0 _ _ Hm), Hadr. reflexivity.
+    + intros a. apply (check_attr_prefix_sound (i_req i) (i_ex i) _ st0 a Hm He). apply Ha, In_all_attrs.
   - split; [apply negb_true_iff; exact Hu|]. intros st0 Hm He.
-    apply col_ext. intros a. apply (check_attr_sound (i_req i) (i_ex i) ss st0 a Hm He). apply Ha, In_all_attrs.
+    rewrite run_spec, (matches_name0 _ _ Hm), Hadr. f_equal.
+    apply col_ext. intros a. apply (check_attr_sound (i_req i) (i_ex i) _ st0 a Hm He). apply Ha, In_all_attrs.
 Qed.
 
 (* ================================================================== Part 2: the model *)
@@ -190,7 +225,7 @@ Definition plain (d:dialect) : bool :=
 
 Lemma effect_plain d sch req ex ss st0 :
   plain d = true -> autoinc_honoured (mkIn d sch req ex) = true -> matches ex st0 ->
-  inner_C13 (mkIn d sch req ex) = (ss, None) -> run ss st0 = override st0 req.
+  inner_C13 (mkIn d sch req ex) = (ss, None) -> run_total ss st0 = override st0 req.
 Proof.
   intros Hd Ha Hm H.
   assert (Hk := autoinc_keep (mkIn d sch req ex) st0 Ha). cbn [i_d i_req i_ex] in Hk.
@@ -216,7 +251,7 @@ Qed.
 
 Lemma effect_mssql sch req ex ss st0 :
   autoinc_honoured (mkIn Dmssql sch req ex) = true -> matches ex st0 -> stated_enough ss req ex st0 ->
-  inner_C13 (mkIn Dmssql sch req ex) = (ss, None) -> run ss st0 = override st0 req.
+  inner_C13 (mkIn Dmssql sch req ex) = (ss, None) -> run_total ss st0 = override st0 req.
 Proof.
   intros Ha Hm He H.
   assert (Hk := autoinc_keep (mkIn Dmssql sch req ex) st0 Ha eq_refl Hm). cbn [i_d i_req i_ex] in Hk.
@@ -243,11 +278,11 @@ Definition mysql_spec (req:request) (ex:existing) (t:ty) : colspec :=
 Lemma mysql_out d req ex ss e :
   is_mysql d = true -> mysql_alter_column d req ex = (ss, e) ->
   (exists t, or_else (r_type req) (e_type ex) = Some t /\ e = None /\
-     (ss = [MySQLChange (match r_name req with Some n => n | None => e_name ex end) (mysql_spec req ex t)] \/
-      (r_name req = None /\ ss = [MySQLModify (mysql_spec req ex t)])))
+     (ss = [MySQLChange (e_name ex) (match r_name req with Some n => n | None => e_name ex end) (mysql_spec req ex t)] \/
+      (r_name req = None /\ ss = [MySQLModify (e_name ex) (mysql_spec req ex t)])))
   \/ (r_name req = None /\ r_null req = None /\ r_type req = None /\ r_autoinc req = None /\ r_comment req = TFalse /\
       e = None /\
-      ss = match r_default req with TFalse => [] | TNone => [MySQLAlterDefault None] | TSome v => [MySQLAlterDefault (Some v)] end)
+      ss = match r_default req with TFalse => [] | TNone => [MySQLAlterDefault (e_name ex) None] | TSome v => [MySQLAlterDefault (e_name ex) (Some v)] end)
   \/ (or_else (r_type req) (e_type ex) = None /\ ss = [] /\ e = Some CommandError /\
       (isSome (r_name req) || isSome (r_null req) || isSome (r_autoinc req) || given (r_comment req)) = true).
 Proof.
@@ -341,25 +376,25 @@ End MySQLFields.
 
 Lemma effect_mysql d sch req ex ss st0 :
   is_mysql d = true -> matches ex st0 -> stated_enough ss req ex st0 ->
-  inner_C13 (mkIn d sch req ex) = (ss, None) -> run ss st0 = override st0 req.
+  inner_C13 (mkIn d sch req ex) = (ss, None) -> run_total ss st0 = override st0 req.
 Proof.
   intros Hd Hm He H. unfold inner_C13, alter_column in H. cbn [i_d i_req i_ex] in H.
   assert (H' : mysql_alter_column d req ex = (ss, None)) by (destruct d; try discriminate Hd; exact H).
   clear H. apply mysql_out in H'; [|exact Hd].
   destruct H' as [[t [T [_ [S|[N S]]]]]|[[N [Nn [Nt [Na [Nc [_ S]]]]]]|[_ [_ [E _]]]]]; [| | |discriminate E].
-  - subst ss. unfold run, override. cbn [fold_left sem].
+  - subst ss. unfold run_total, override. cbn [fold_left apply].
     rewrite (my_spec_effect req ex st0 Hm); [|intros a Ha Hr; eapply He; [left; reflexivity|exact Ha|exact Hr]|exact T].
     rewrite (matches_name ex st0 Hm). reflexivity.
-  - subst ss. unfold run, override. cbn [fold_left sem].
+  - subst ss. unfold run_total, override. cbn [fold_left apply].
     rewrite (my_spec_effect req ex st0 Hm); [|intros a Ha Hr; eapply He; [left; reflexivity|exact Ha|exact Hr]|exact T].
     rewrite N. reflexivity.
-  - subst ss. unfold run, override. rewrite N, Nn, Nt, Na, Nc. destruct st0. destruct (r_default req); reflexivity.
+  - subst ss. unfold run_total, override. rewrite N, Nn, Nt, Na, Nc. destruct st0. destruct (r_default req); reflexivity.
 Qed.
 
 (* ---------------------------------------------------------------- main effect theorem *)
 Theorem effect_all_inner i ss st0 :
   autoinc_honoured i = true -> inner_C13 i = (ss, None) -> matches (i_ex i) st0 ->
-  stated_enough ss (i_req i) (i_ex i) st0 -> run ss st0 = override st0 (i_req i).
+  stated_enough ss (i_req i) (i_ex i) st0 -> run_total ss st0 = override st0 (i_req i).
 Proof.
   destruct i as [d sch req ex]. cbn [i_req i_ex]. intros Ha H Hm He.
   destruct d.
@@ -464,7 +499,7 @@ Ltac old_or_new := first [left; reflexivity | right; reflexivity].
 
 Lemma prefix_plain d sch req ex ss e st0 :
   plain d = true -> inner_C13 (mkIn d sch req ex) = (ss, Some e) ->
-  forall a, get a (run ss st0) = get a st0 \/ get a (run ss st0) = get a (override st0 req).
+  forall a, get a (run_total ss st0) = get a st0 \/ get a (run_total ss st0) = get a (override st0 req).
 Proof.
   intros Hd H a. destruct st0 as [n t nl df cm ai].
   destr_req req. all: destruct ru as [ru|].
@@ -475,7 +510,7 @@ Qed.
 
 Lemma prefix_mssql sch req ex ss e st0 :
   matches ex st0 -> stated_enough ss req ex st0 -> inner_C13 (mkIn Dmssql sch req ex) = (ss, Some e) ->
-  forall a, get a (run ss st0) = get a st0 \/ get a (run ss st0) = get a (override st0 req).
+  forall a, get a (run_total ss st0) = get a st0 \/ get a (run_total ss st0) = get a (override st0 req).
 Proof.
   intros Hm He H a.
   assert (Ht := matches_type ex st0 Hm). assert (Hn := matches_null ex st0 Hm).
@@ -492,7 +527,7 @@ Qed.
 
 Lemma prefix_mysql d sch req ex ss e st0 :
   is_mysql d = true -> inner_C13 (mkIn d sch req ex) = (ss, Some e) ->
-  forall a, get a (run ss st0) = get a st0 \/ get a (run ss st0) = get a (override st0 req).
+  forall a, get a (run_total ss st0) = get a st0 \/ get a (run_total ss st0) = get a (override st0 req).
 Proof.
   intros Hd H a. unfold inner_C13, alter_column in H. cbn [i_d i_req i_ex] in H.
   assert (H' : mysql_alter_column d req ex = (ss, Some e)) by (destruct d; try discriminate Hd; exact H).
@@ -505,7 +540,7 @@ Theorem raises_instead_all_inner i ss e :
   inner_C13 i = (ss, Some e) ->
   unsupported i = true /\
   forall st0, matches (i_ex i) st0 -> stated_enough ss (i_req i) (i_ex i) st0 ->
-    forall a, get a (run ss st0) = get a st0 \/ get a (run ss st0) = get a (override st0 (i_req i)).
+    forall a, get a (run_total ss st0) = get a st0 \/ get a (run_total ss st0) = get a (override st0 (i_req i)).
 Proof.
   intros H. split.
   - rewrite <- raises_iff_unsupported_inner, H. reflexivity.
@@ -534,7 +569,7 @@ Qed.
 
 Definition req_autoinc_only : request := mkReq None None TFalse None TFalse (Some true) None.
 Definition ex_nothing : existing := mkEx 1 None None TFalse None None.
-Definition st_plain : colstate := mkCol 1 (mkTy 0 false None) true None None false.
+Definition st_plain : colstate := mkCol 1%N (mkTy 0 false None) true None None false.
 
 
 (* ---------------------------------------------------------------- which existing_* values are needed *)
@@ -596,6 +631,62 @@ Proof.
 Qed.
 
 
+(* ---------------------------------------------------------------- addressing: the impl-level call names the
+   column by its current name in every statement, and the rename comes last (or inside the one restating
+   statement) *)
+Definition addr_fact (i:c13_in) : Prop :=
+  addr_ok (e_name (i_ex i)) (fst (inner_C13 i)) = true /\
+  (snd (inner_C13 i) = None ->
+   fold_left name_after (fst (inner_C13 i)) (e_name (i_ex i))
+   = match r_name (i_req i) with Some n => n | None => e_name (i_ex i) end).
+
+Ltac addr_tac :=
+  unfold addr_fact; cbn -[N.eqb]; rewrite ?N.eqb_refl; cbn -[N.eqb];
+  split; [reflexivity|intros E; first [reflexivity|discriminate E]].
+
+Lemma addr_plain d sch req ex : plain d = true -> addr_fact (mkIn d sch req ex).
+Proof.
+  intros Hd. destruct ex as [en et enl ed ec ea].
+  destr_req req. all: destruct ru as [ru|].
+  all: destruct d; try discriminate Hd.
+  all: addr_tac.
+Qed.
+
+Lemma addr_mssql sch req ex : addr_fact (mkIn Dmssql sch req ex).
+Proof.
+  destruct ex as [en et enl ed ec ea].
+  destr_req req.
+  all: destruct et as [et|], enl as [enl|], ed as [| |ed].
+  all: addr_tac.
+Qed.
+
+Lemma addr_mysql d sch req ex : is_mysql d = true -> addr_fact (mkIn d sch req ex).
+Proof.
+  intros Hd.
+  assert (Hi : inner_C13 (mkIn d sch req ex) = mysql_alter_column d req ex)
+    by (destruct d; try discriminate Hd; reflexivity).
+  unfold addr_fact. rewrite Hi. cbn [i_req i_ex].
+  destruct (mysql_alter_column d req ex) as [ss e] eqn:H'. cbn [fst snd].
+  apply mysql_out in H'; [|exact Hd].
+  destruct H' as [[t [T [-> [S|[N S]]]]]|[[N [Nn [Nt [Na [Nc [-> S]]]]]]|[_ [S [-> _]]]]]; subst ss.
+  - cbn -[N.eqb]. rewrite N.eqb_refl. split; [reflexivity|intros _; reflexivity].
+  - cbn -[N.eqb]. rewrite N.eqb_refl, N. split; [reflexivity|intros _; reflexivity].
+  - rewrite N. destruct (r_default req); cbn -[N.eqb]; rewrite ?N.eqb_refl; split; auto.
+  - split; [reflexivity|intros E; discriminate E].
+Qed.
+
+Lemma addr_inner i : addr_fact i.
+Proof.
+  destruct i as [d sch req ex]. destruct d.
+  - exact (addr_plain Ddefault sch req ex eq_refl).
+  - exact (addr_plain Dsqlite sch req ex eq_refl).
+  - exact (addr_plain Dpostgresql sch req ex eq_refl).
+  - exact (addr_mysql Dmysql sch req ex eq_refl).
+  - exact (addr_mysql Dmariadb sch req ex eq_refl).
+  - exact (addr_mssql sch req ex).
+  - exact (addr_plain Doracle sch req ex eq_refl).
+Qed.
+
 (* ================================================================== Part 3: the toimpl layer
    toimpl.alter_column only wraps the impl-level call in DROP/ADD CONSTRAINT statements for type-bound
    CHECKs; these leave the six column attributes alone, so everything lifts. *)
@@ -619,7 +710,7 @@ Proof.
   set (pre := match e_type (i_ex i), r_type (i_req i) with
               | Some et, Some _ => match ty_ck et with Some k => drop_constraint (i_d i) k | None => ret end
               | _, _ => ret end).
-  set (post := match ck_of (r_type (i_req i)) with Some k => add_constraint (i_d i) k | None => ret end).
+  set (post := match ck_of (r_type (i_req i)) with Some k => add_constraint (i_d i) (e_name (i_ex i)) k | None => ret end).
   assert (Hpre : exists ps, forallb noop ps = true /\ pre = (ps, None)).
   { unfold pre, drop_constraint, ret. destruct (e_type (i_ex i)) as [et|], (r_type (i_req i)) as [rt|];
       try (exists []; split; reflexivity).
@@ -654,7 +745,7 @@ Proof.
     + rewrite forallb_forall in Hq. auto.
 Qed.
 
-Lemma run_model i st0 : run (fst (model_C13 i)) st0 = run (fst (inner_C13 i)) st0.
+Lemma run_model i st0 : run_total (fst (model_C13 i)) st0 = run_total (fst (inner_C13 i)) st0.
 Proof. rewrite !run_flat. destruct (model_facts i) as [_ [-> _]]. reflexivity. Qed.
 
 Lemma stated_enough_model i st0 :
@@ -664,9 +755,9 @@ Proof. rewrite !stated_enough_attrs. destruct (model_facts i) as [_ [_ [-> _]]].
 Theorem raises_iff_unsupported i : isSome (snd (model_C13 i)) = unsupported i.
 Proof. destruct (model_facts i) as [-> _]. apply raises_iff_unsupported_inner. Qed.
 
-Theorem effect_all i ss st0 :
+Theorem effect_total i ss st0 :
   autoinc_honoured i = true -> model_C13 i = (ss, None) -> matches (i_ex i) st0 ->
-  stated_enough ss (i_req i) (i_ex i) st0 -> run ss st0 = override st0 (i_req i).
+  stated_enough ss (i_req i) (i_ex i) st0 -> run_total ss st0 = override st0 (i_req i).
 Proof.
   intros Ha H Hm He.
   assert (Hf : fst (model_C13 i) = ss) by (rewrite H; reflexivity).
@@ -674,6 +765,77 @@ Proof.
   rewrite <- Hf in He |- *. rewrite run_model. apply stated_enough_model in He.
   destruct (inner_C13 i) as [ss' e'] eqn:Hi. cbn [fst snd] in *. subst e'.
   eapply effect_all_inner; eauto.
+Qed.
+
+(* ---- addressing at the toimpl level: DROP CONSTRAINT names no column; ADD CONSTRAINT names the OLD column
+   name and comes after the impl-level call, i.e. after a rename *)
+Definition pre_stmts (i:c13_in) : list stmt :=
+  match e_type (i_ex i), r_type (i_req i) with
+  | Some et, Some _ => match ty_ck et with
+                       | Some k => match i_d i with Dmysql | Dmariadb | Dsqlite => [] | _ => [DropConstraint k] end
+                       | None => [] end
+  | _, _ => []
+  end.
+Definition post_stmts (i:c13_in) : list stmt :=
+  match ck_of (r_type (i_req i)) with
+  | Some k => match i_d i with Dsqlite => [] | _ => [AddConstraint (e_name (i_ex i)) k] end
+  | None => []
+  end.
+
+Lemma model_shape_x i :
+  model_C13 i = (pre_stmts i ++ fst (inner_C13 i) ++ (match snd (inner_C13 i) with None => post_stmts i | Some _ => [] end),
+                 snd (inner_C13 i)).
+Proof.
+  unfold model_C13, inner_C13, plan, toimpl_alter_column, pre_stmts, post_stmts.
+  assert (Hpre : match e_type (i_ex i), r_type (i_req i) with
+                 | Some et, Some _ => match ty_ck et with Some k => drop_constraint (i_d i) k | None => ret end
+                 | _, _ => ret end
+               = (match e_type (i_ex i), r_type (i_req i) with
+                  | Some et, Some _ => match ty_ck et with
+                       | Some k => match i_d i with Dmysql | Dmariadb | Dsqlite => [] | _ => [DropConstraint k] end
+                       | None => [] end
+                  | _, _ => [] end, None)).
+  { destruct (e_type (i_ex i)) as [et|], (r_type (i_req i)) as [rt|]; try reflexivity.
+    destruct (ty_ck et); [|reflexivity]. destruct (i_d i); reflexivity. }
+  assert (Hpost : match ck_of (r_type (i_req i)) with Some k => add_constraint (i_d i) (e_name (i_ex i)) k | None => ret end
+               = (match ck_of (r_type (i_req i)) with
+                  | Some k => match i_d i with Dsqlite => [] | _ => [AddConstraint (e_name (i_ex i)) k] end
+                  | None => [] end, None)).
+  { destruct (ck_of (r_type (i_req i))); [|reflexivity]. destruct (i_d i); reflexivity. }
+  rewrite Hpre, Hpost.
+  destruct (alter_column (i_d i) (i_req i) (i_ex i)) as [ss [e|]]; cbn; rewrite ?app_nil_r, <- ?app_assoc; reflexivity.
+Qed.
+
+Lemma addr_model i :
+  check_after_rename i = false \/ snd (model_C13 i) <> None ->
+  addr_ok (e_name (i_ex i)) (fst (model_C13 i)) = true.
+Proof.
+  intros Hc. rewrite model_shape_x in *. cbn [fst snd] in *.
+  destruct (addr_inner i) as [Hok Hfin].
+  assert (Hpre : addr_ok (e_name (i_ex i)) (pre_stmts i) = true /\
+                 fold_left name_after (pre_stmts i) (e_name (i_ex i)) = e_name (i_ex i)).
+  { unfold pre_stmts. destruct (e_type (i_ex i)), (r_type (i_req i)); try (split; reflexivity).
+    destruct (ty_ck t); [|split; reflexivity]. destruct (i_d i); split; reflexivity. }
+  destruct Hpre as [Hp1 Hp2].
+  rewrite addr_ok_app, Hp1, Hp2, addr_ok_app, Hok. cbn [andb].
+  destruct (snd (inner_C13 i)) as [e|] eqn:Hs; [reflexivity|].
+  rewrite (Hfin eq_refl). destruct Hc as [Hc|Hc]; [|congruence].
+  unfold post_stmts. unfold check_after_rename in Hc.
+  destruct (ck_of (r_type (i_req i))) as [k|]; [|reflexivity].
+  destruct (r_name (i_req i)) as [n|].
+  - destruct (i_d i); try reflexivity; cbn [addr_ok addr andb]; rewrite andb_true_r in *;
+      apply negb_false_iff in Hc; rewrite N.eqb_sym; rewrite Hc; reflexivity.
+  - destruct (i_d i); try reflexivity; cbn [addr_ok addr andb]; rewrite N.eqb_refl; reflexivity.
+Qed.
+
+Theorem effect_all i ss st0 :
+  inclass_C13 i = true -> model_C13 i = (ss, None) -> matches (i_ex i) st0 ->
+  stated_enough ss (i_req i) (i_ex i) st0 -> run ss st0 = Some (override st0 (i_req i)).
+Proof.
+  unfold inclass_C13. rewrite andb_true_iff, negb_true_iff. intros [Ha Hc] H Hm He.
+  rewrite run_spec, (matches_name0 _ _ Hm).
+  assert (Hf : fst (model_C13 i) = ss) by (rewrite H; reflexivity).
+  rewrite <- Hf at 1. rewrite (addr_model i (or_introl Hc)). f_equal. eapply effect_total; eauto.
 Qed.
 
 Theorem no_invention_all i ss e : model_C13 i = (ss, e) -> no_invention (i_req i) (i_ex i) ss.
@@ -690,20 +852,29 @@ Theorem raises_instead_all i ss e :
   model_C13 i = (ss, Some e) ->
   unsupported i = true /\
   forall st0, matches (i_ex i) st0 -> stated_enough ss (i_req i) (i_ex i) st0 ->
-    forall a, get a (run ss st0) = get a st0 \/ get a (run ss st0) = get a (override st0 (i_req i)).
+    exists st', run ss st0 = Some st' /\
+    forall a, get a st' = get a st0 \/ get a st' = get a (override st0 (i_req i)).
 Proof.
   intros H.
   assert (Hf : fst (model_C13 i) = ss) by (rewrite H; reflexivity).
+  assert (Hsm : snd (model_C13 i) <> None) by (rewrite H; discriminate).
   assert (Hs : snd (inner_C13 i) = Some e) by (destruct (model_facts i) as [<- _]; rewrite H; reflexivity).
   destruct (inner_C13 i) as [ss' e'] eqn:Hi. cbn [snd] in Hs. subst e'.
   destruct (raises_instead_all_inner i ss' e Hi) as [Hu Hp]. split; [exact Hu|].
-  intros st0 Hm He a. rewrite <- Hf in He |- *. rewrite run_model, Hi. cbn [fst].
-  apply Hp; auto. apply stated_enough_model in He. rewrite Hi in He. exact He.
+  intros st0 Hm He. exists (run_total ss st0). split.
+  - rewrite run_spec, (matches_name0 _ _ Hm). rewrite <- Hf at 1. rewrite (addr_model i (or_intror Hsm)). reflexivity.
+  - intros a. rewrite <- Hf in He |- *. rewrite run_model, Hi. cbn [fst].
+    apply Hp; auto. apply stated_enough_model in He. rewrite Hi in He. exact He.
 Qed.
 
-Theorem model_holds_partial i : autoinc_honoured i = true -> C13_holds i (model_C13 i).
+Lemma map_snd_tag (t:target) ss : map snd (map (fun s : stmt => (t, s)) ss) = ss.
+Proof. induction ss as [|s r IH]; [reflexivity|]. cbn. rewrite IH. reflexivity. Qed.
+
+Theorem model_holds_partial i : inclass_C13 i = true -> C13_holds i (tagged_C13 i).
 Proof.
-  intros Ha. destruct (model_C13 i) as [ss e] eqn:H. unfold C13_holds.
+  intros Ha. unfold tagged_C13. destruct (model_C13 i) as [ss e] eqn:H. cbn [fst snd]. unfold C13_holds.
+  rewrite map_snd_tag. split.
+  { intros ts Hin. apply in_map_iff in Hin. destruct Hin as [s [<- _]]. reflexivity. }
   split; [eapply no_invention_all; eauto|].
   destruct e as [e|].
   - apply raises_instead_all in H. exact H.
@@ -713,32 +884,57 @@ Proof.
 Qed.
 
 (* toimpl's own statements never touch the six attributes *)
-Theorem toimpl_frame i st0 : run (fst (model_C13 i)) st0 = run (fst (inner_C13 i)) st0.
+Theorem toimpl_frame i st0 : run_total (fst (model_C13 i)) st0 = run_total (fst (inner_C13 i)) st0.
 Proof. apply run_model. Qed.
 
-Theorem autoinc_ignored i st0 :
-  is_mysql (i_d i) = false -> c_autoinc (run (fst (model_C13 i)) st0) = c_autoinc st0.
+Theorem autoinc_ignored i st0 st' :
+  is_mysql (i_d i) = false -> run (fst (model_C13 i)) st0 = Some st' -> c_autoinc st' = c_autoinc st0.
 Proof.
-  intros Hd. rewrite run_model. pose proof (get_run AAutoinc (fst (inner_C13 i)) st0) as H.
+  intros Hd Hr. rewrite run_spec in Hr. destruct (addr_ok (c_name st0) (fst (model_C13 i))); [|discriminate Hr].
+  injection Hr as <-. rewrite run_model. pose proof (get_run AAutoinc (fst (inner_C13 i)) st0) as H.
   rewrite (autoinc_never_assigned_inner i Hd) in H. cbn in H. congruence.
 Qed.
 
+Lemma matches_plain : matches ex_nothing st_plain.
+Proof. intros a v. destruct a; cbn; intros E; try discriminate E. injection E as <-. reflexivity. Qed.
+
 Theorem autoinc_refuted d sch :
   is_mysql d = false ->
-  autoinc_honoured (mkIn d sch req_autoinc_only ex_nothing) = false /\
-  model_C13 (mkIn d sch req_autoinc_only ex_nothing) = ([], None) /\
-  ~ C13_holds (mkIn d sch req_autoinc_only ex_nothing) (model_C13 (mkIn d sch req_autoinc_only ex_nothing)).
+  inclass_C13 (mkIn d sch req_autoinc_only ex_nothing) = false /\
+  tagged_C13 (mkIn d sch req_autoinc_only ex_nothing) = ([], None) /\
+  ~ C13_holds (mkIn d sch req_autoinc_only ex_nothing) (tagged_C13 (mkIn d sch req_autoinc_only ex_nothing)).
 Proof.
   intros Hd.
-  assert (M : model_C13 (mkIn d sch req_autoinc_only ex_nothing) = ([], None))
+  assert (M : tagged_C13 (mkIn d sch req_autoinc_only ex_nothing) = ([], None))
     by (destruct d; try discriminate Hd; reflexivity).
   split; [destruct d; try discriminate Hd; reflexivity|]. split; [exact M|].
-  rewrite M. unfold C13_holds. intros [_ [_ H]].
-  specialize (H st_plain).
-  assert (Hm : matches ex_nothing st_plain).
-  { intros a v. destruct a; cbn; intros E; try discriminate E. injection E as <-. reflexivity. }
+  rewrite M. unfold C13_holds. intros [_ [_ [_ H]]].
+  specialize (H st_plain matches_plain).
   assert (He : stated_enough [] req_autoinc_only ex_nothing st_plain) by (intros s a []).
-  specialize (H Hm He). discriminate H.
+  specialize (H He). discriminate H.
+Qed.
+
+(* FINDING 2: the CHECK of the new type is added after the rename but names the old column *)
+Definition req_rename_enum : request := mkReq (Some (mkTy 13 false (Some 51%N))) None TFalse (Some 2%N) TFalse None None.
+
+Theorem check_after_rename_refuted d sch :
+  d <> Dsqlite ->
+  inclass_C13 (mkIn d sch req_rename_enum ex_nothing) = false /\
+  snd (model_C13 (mkIn d sch req_rename_enum ex_nothing)) = None /\
+  run (fst (model_C13 (mkIn d sch req_rename_enum ex_nothing))) st_plain = None /\
+  ~ C13_holds (mkIn d sch req_rename_enum ex_nothing) (tagged_C13 (mkIn d sch req_rename_enum ex_nothing)).
+Proof.
+  intros Hd.
+  assert (R : run (fst (model_C13 (mkIn d sch req_rename_enum ex_nothing))) st_plain = None)
+    by (destruct d; try (exfalso; apply Hd; reflexivity); reflexivity).
+  assert (E : snd (model_C13 (mkIn d sch req_rename_enum ex_nothing)) = None)
+    by (destruct d; reflexivity).
+  split; [destruct d; try (exfalso; apply Hd; reflexivity); reflexivity|]. split; [exact E|]. split; [exact R|].
+  unfold tagged_C13, C13_holds. rewrite E, map_snd_tag. intros [_ [_ [_ H]]].
+  specialize (H st_plain matches_plain).
+  assert (He : stated_enough (fst (model_C13 (mkIn d sch req_rename_enum ex_nothing))) req_rename_enum ex_nothing st_plain).
+  { intros s a _ Ha Hr. destruct a; cbn in Hr; try discriminate Hr; right; reflexivity. }
+  specialize (H He). rewrite R in H. discriminate H.
 Qed.
 
 Theorem stated_enough_exact i st0 :
@@ -760,7 +956,7 @@ Ltac unknown_tac :=
   | intros [K|K]; cbn in K; congruence ].
 Ltac witness i st0 :=
   exists i, st0; split; [reflexivity|split; [reflexivity|split; [unknown_tac|split; [reflexivity|]]]];
-  vm_compute; intros E; discriminate E.
+  eexists; split; [vm_compute; reflexivity|vm_compute; intros E; discriminate E].
 
 Theorem stated_enough_minimal :
   needed_witness Dmysql ANull /\ needed_witness Dmysql ADefault /\ needed_witness Dmysql AComment /\
@@ -770,26 +966,26 @@ Theorem stated_enough_minimal :
   needed_witness Dmssql ANull.
 Proof.
   repeat split.
-  - witness (mkIn Dmysql false req_type_only ex_nothing) (mkCol 1 T0 false None None false).
-  - witness (mkIn Dmysql false req_type_only ex_nothing) (mkCol 1 T0 true (Some 7) None false).
-  - witness (mkIn Dmysql false req_type_only ex_nothing) (mkCol 1 T0 true None (Some 30) false).
-  - witness (mkIn Dmysql false req_type_only ex_nothing) (mkCol 1 T0 true None None true).
-  - witness (mkIn Dmariadb false req_type_only ex_nothing) (mkCol 1 T0 false None None false).
-  - witness (mkIn Dmariadb false req_type_only ex_nothing) (mkCol 1 T0 true (Some 7) None false).
-  - witness (mkIn Dmariadb false req_type_only ex_nothing) (mkCol 1 T0 true None (Some 30) false).
-  - witness (mkIn Dmariadb false req_type_only ex_nothing) (mkCol 1 T0 true None None true).
-  - witness (mkIn Dmssql false req_type_only ex_nothing) (mkCol 1 T0 false None None false).
+  - witness (mkIn Dmysql tN req_type_only ex_nothing) (mkCol 1 T0 false None None false).
+  - witness (mkIn Dmysql tN req_type_only ex_nothing) (mkCol 1 T0 true (Some 7) None false).
+  - witness (mkIn Dmysql tN req_type_only ex_nothing) (mkCol 1 T0 true None (Some 30) false).
+  - witness (mkIn Dmysql tN req_type_only ex_nothing) (mkCol 1 T0 true None None true).
+  - witness (mkIn Dmariadb tN req_type_only ex_nothing) (mkCol 1 T0 false None None false).
+  - witness (mkIn Dmariadb tN req_type_only ex_nothing) (mkCol 1 T0 true (Some 7) None false).
+  - witness (mkIn Dmariadb tN req_type_only ex_nothing) (mkCol 1 T0 true None (Some 30) false).
+  - witness (mkIn Dmariadb tN req_type_only ex_nothing) (mkCol 1 T0 true None None true).
+  - witness (mkIn Dmssql tN req_type_only ex_nothing) (mkCol 1 T0 false None None false).
 Qed.
 
 (* ---------------------------------------------------------------- non-vacuity *)
 Definition nv_in : c13_in :=
-  mkIn Dmysql true (mkReq None (Some false) TFalse (Some 2) TFalse None None)
+  mkIn Dmysql tS (mkReq None (Some false) TFalse (Some 2) TFalse None None)
        (mkEx 1 (Some T0) (Some true) (TSome 7) (Some 30) (Some true)).
 Definition nv_st : colstate := mkCol 1 T0 true (Some 7) (Some 30) true.
 
 Lemma effect_nonvacuous :
-  exists ss, autoinc_honoured nv_in = true /\ model_C13 nv_in = (ss, None) /\ matches (i_ex nv_in) nv_st /\
-             stated_enough ss (i_req nv_in) (i_ex nv_in) nv_st /\ run ss nv_st <> nv_st.
+  exists ss, inclass_C13 nv_in = true /\ model_C13 nv_in = (ss, None) /\ matches (i_ex nv_in) nv_st /\
+             stated_enough ss (i_req nv_in) (i_ex nv_in) nv_st /\ run ss nv_st <> Some nv_st.
 Proof.
   eexists. split; [reflexivity|]. split; [vm_compute; reflexivity|]. split; [matches_tac|]. split.
   - intros s a _ _ _. left. destruct a; cbn; discriminate.
@@ -797,10 +993,18 @@ Proof.
 Qed.
 
 Definition nv_raise : c13_in :=
-  mkIn Dmssql false (mkReq (Some T1) (Some false) TFalse None (TSome 31) None None) ex_nothing.
-Lemma raises_nonvacuous : model_C13 nv_raise = ([MSSQLAlterNull T1 false], Some CompileError).
+  mkIn Dmssql tN (mkReq (Some T1) (Some false) TFalse None (TSome 31) None None) ex_nothing.
+Lemma raises_nonvacuous : model_C13 nv_raise = ([MSSQLAlterNull 1 T1 false], Some CompileError).
 Proof. reflexivity. Qed.
 
-Lemma decider_nonvacuous : check_C13 nv_in (model_C13 nv_in) = true /\ check_C13 nv_raise (model_C13 nv_raise) = true
-  /\ check_C13 nv_in ([MySQLChange 2 (mkSpec T0 false true None (Some 30))], None) = false.
-Proof. vm_compute. auto. Qed.
+(* the decider accepts the model's output, and rejects: a wrong restated value, the comment statement placed
+   after the rename (it names a column that no longer exists), a statement on another schema *)
+Definition nv_order : c13_in :=
+  mkIn Dpostgresql tS (mkReq None None TFalse (Some 2) (TSome 31) None None) ex_nothing.
+Lemma decider_nonvacuous :
+  check_C13 nv_in (tagged_C13 nv_in) = true /\ check_C13 nv_raise (tagged_C13 nv_raise) = true /\
+  check_C13 nv_in ([(tS, MySQLChange 1 2 (mkSpec T0 false true None (Some 30)))], None) = false /\
+  check_C13 nv_order ([(tS, SetComment 1 (Some 31)); (tS, Rename 1 2)], None) = true /\
+  check_C13 nv_order ([(tS, Rename 1 2); (tS, SetComment 1 (Some 31))], None) = false /\
+  check_C13 nv_order ([(tS, SetComment 1 (Some 31)); (tN, Rename 1 2)], None) = false.
+Proof. vm_compute. auto 10. Qed.
